@@ -16,6 +16,8 @@ Decided statically (DESIGN.md section 5, C15):
   R-C15-4  WriteSizeCalculator::write adds exactly `size` on every path.
   R-C15-5  size prediction: for every written probe type the operator selected when the static stream type is
            WriteSizeCalculator is the one selected for a WriteStream, or accounts exactly the same byte count.
+  R-C15-6  the array type behind BufferWriter::buffer keeps its cached (pointer, size) in step with the storage it owns
+           across moves (special-member facts of the record + bodies of user-provided move operations).
 Not decided: equality of the values after a round trip (needs the run-time contents), wrap-around of
 `cursor + size` for sizes near SIZE_MAX, behaviour after user code modified the public cursor/buffer members.
 """
@@ -112,8 +114,8 @@ class BufEngine:
         if rec:
             for fd in rec['fields']:
                 ct = fd['ct'].replace('const ', '')
-                if ct.startswith('std::shared_ptr<' + UTIL):
-                    self.buf_field = fd['name']
+                if ct.startswith('std::shared_ptr<' + UTIL) and 'View<' not in ct and self.buf_field is None:
+                    self.buf_field = fd['name']     # the array itself; shared_ptr<...View> members are derived data
 
     # ---- object recognition
     def is_buf_sp(self, e):
@@ -401,6 +403,8 @@ class BufEngine:
         return None
 
     def assign(self, st, tgt, v, node=None):
+        if tgt[0] == 'field':
+            st.events.append(('touch', tgt[1], node))
         if tgt[0] == 'field' and tgt[1] != self.buf_field and self.derived_from_buffer(v):
             st.events.append(('cache', tgt[1], node, v))
         if tgt[0] == 'field':
@@ -458,6 +462,12 @@ class BufEngine:
             else:
                 self.assign(st, tgt, None)
             return None
+        if k in ('CXXMemberCallExpr', 'CXXOperatorCallExpr'):
+            sd_, obj_, args_ = tu.call_parts(n)
+            nm_ = sd_.get('q', '').split('::')[-1]
+            m_ = tu.member_of_this(obj_) if obj_ is not None else None
+            if m_ is not None and m_ != self.buf_field and nm_ in ('operator=', 'reset', 'clear', 'assign', 'swap'):
+                st.events.append(('touch', m_, n['id']))
         if k == 'CXXMemberCallExpr':
             sd, obj, args = tu.call_parts(n)
             name = sd.get('q', '').split('::')[-1]
@@ -1021,7 +1031,68 @@ def check_accessors(ctx, tu):
         n += 1
         inst = 'FixedBufferWriter::getWrittenView'
         vs = [e for o in outs for e in o[1].events if e[0] == 'view']
-        if len(outs) != 1 or len(vs) != 1:
+
+        def returned_member(st_):
+            rets = [e for e in st_.events if e[0] == 'return']
+            if not rets:
+                return None
+            x = tu.node(rets[-1][2])
+            x = tu.kids(x)[0] if x is not None and tu.kids(x) else None
+            hops = 0
+            while x is not None and hops < 6:
+                hops += 1
+                x = tu.strip(x, casts=True)
+                if x is not None and x.get('kind') == 'CXXConstructExpr' and len(tu.kids(x)) == 1:
+                    x = tu.kids(x)[0]
+                    continue
+                break
+            return tu.member_of_this(x) if x is not None else None
+
+        cached = {returned_member(o[1]) for o in outs}
+        if len(cached) == 1 and None not in cached and len(outs) >= 2:
+            # the view is memoised in a member: correct only if the member is dropped whenever the cursor moves
+            m = cached.pop()
+            bad_view = [e for e in vs if not (e[1][3] == Poly.const(0) and e[2] == c0)]
+            unassigned = [o for o in outs if [e for e in o[1].events if e[0] == 'view'] and
+                          not [e for e in o[1].events if e[0] == 'touch' and e[1] == m]]
+            if bad_view:
+                ctx.violation(R, inst, 'view covers [%s, %s); required [0, cursor) = exactly what was written'
+                              % (show(bad_view[0][1][3]), show(bad_view[0][1][3] + bad_view[0][2])), tu.loc(bad_view[0][3]),
+                              key='%s|%s|%s|region' % (R, tu.fn_file(f), inst))
+            elif unassigned or not vs:
+                ctx.undecided(R, inst, 'returns the member `%s`, whose relation to a view over [0, cursor) is not understood' % m, tu.fn_loc(f))
+            else:
+                stale = []
+                und = None
+                for g_ in sorted(tu.functions.values(), key=lambda x_: (x_['f'], x_['l'])):
+                    if g_.get('rec') != f.get('rec') or g_['dep'] or tu.cfg(g_) is None or g_.get('const') or g_.get('ctor') \
+                            or g_.get('dtor') or g_.get('implicit') or g_['id'] == f['id']:
+                        continue
+                    try:
+                        s1 = St({'cursor': c0}, cap)
+                        s1.inv = [c0 - cap]
+                        for kind_, st_, rv_ in BufEngine(tu, g_).run(s1):
+                            if kind_ == 'throw':
+                                continue
+                            moved = st_.fields.get('cursor') != c0 or [e for e in st_.events if e[0] == 'resize']
+                            if moved and not [e for e in st_.events if e[0] == 'touch' and e[1] == m]:
+                                stale.append((g_, st_))
+                                break
+                    except Undecided as u:
+                        und = (g_, str(u))
+                if stale:
+                    g_, st_ = stale[0]
+                    ctx.violation(R, inst, 'getWrittenView() returns the view memoised in member `%s` (a view over [0, cursor) at the '
+                                  'time it was created); %s moves the cursor to %s without dropping `%s`, so a later '
+                                  'getWrittenView() describes less than what was written'
+                                  % (m, short(g_['q']), show(st_.fields.get('cursor')), m), tu.fn_loc(g_),
+                                  key='%s|%s|%s|stale-cached-view' % (R, tu.fn_file(g_), short(g_['q'])),
+                                  path=path_text(tu, tu.cfg(g_), st_))
+                elif und:
+                    ctx.undecided(R, inst, 'memoised view `%s`: %s is not analysable (%s)' % (m, short(und[0]['q']), und[1]), tu.fn_loc(f))
+                else:
+                    ctx.ok(R, inst, 'memoised view over [0, cursor); every path that moves the cursor drops `%s`' % m, tu.fn_loc(f))
+        elif len(outs) != 1 or len(vs) != 1:
             ctx.undecided(R, inst, 'expected one path creating one view', tu.fn_loc(f))
         else:
             _, ptr, ln, nid, gen, bsz = vs[0]
@@ -1211,6 +1282,8 @@ def pointee(ct):
 def show_path(p):
     if p[0] == 'rh':
         return 'value'
+    if p[0] == 'cstr':
+        return '%s.c_str()' % show_path(p[1])
     if p[0] == 'elem':
         return '%s[i]' % show_path(p[1])
     if p[0] == 'local':
@@ -1221,6 +1294,8 @@ def show_path(p):
 def subst_path(p, root):
     if p[0] == 'rh':
         return root
+    if p[0] == 'cstr':
+        return ('cstr', subst_path(p[1], root))
     if p[0] == 'elem':
         return ('elem', subst_path(p[1], root))
     return p
@@ -1308,7 +1383,11 @@ class SigBuilder:
         env = {'stream': ps[0]['id'], 'rh': ps[1]['id'], 'rh_ct': ps[1]['ct'], 'dir': direction, 'vars': {}, 'elems': {},
                'ptype': {('rh',): ps[1]['ct']}, 'fn': f}
         body = tu.body(f)
-        items = self.block(body, env)
+        try:
+            items = self.block(body, env)
+        except Undecided:
+            del self.memo[f['id']]      # not recursion: the next user gets the real reason again
+            raise
         self.memo[f['id']] = (direction, items)
         return direction, items
 
@@ -1473,6 +1552,8 @@ class SigBuilder:
             return None
         if k == 'DeclRefExpr':
             p = self.path_of(e, env)
+            if p is not None and p[0] == 'cstr':
+                return ('data', p[1], 'char')        # the characters of the string itself
             if p is not None:
                 pt = pointee(env['ptype'].get(p, '') if p != ('rh',) else env['rh_ct'])
                 if pt is not None:
@@ -1496,6 +1577,19 @@ class SigBuilder:
                     raise Undecided('declaration `%s` in a stream operator' % vd.get('kind'))
                 init = tu.kids(vd)
                 env.setdefault('locals', {})[vd['id']] = vd.get('name')
+                if init and vd.get('type', {}).get('qualType', '').rstrip().endswith('*'):
+                    # a local pointer to the characters of a streamed string: const char *p = s.c_str();
+                    x0 = tu.strip(init[0], casts=True)
+                    if x0 is not None and x0.get('kind') == 'CXXMemberCallExpr':
+                        sd_, obj_, args_ = tu.call_parts(x0)
+                        if sd_.get('q', '').split('::')[-1] in ('c_str', 'data') and not args_ and obj_ is not None and \
+                                sd_.get('q', '').startswith('std::basic_string'):
+                            base = self.path_of(obj_, env)
+                            if base is not None:
+                                env['elems'] = dict(env['elems'])
+                                env['elems'][vd['id']] = ('cstr', base)
+                                env['ptype'][('cstr', base)] = 'const char *'
+                                continue
                 if init:
                     v = self.length(init[0], env, items)
                     if v is None:
@@ -1667,6 +1761,15 @@ class SigBuilder:
                 raise Undecided('mixed stream directions')
             opnd = tu.strip(ks[1], casts=True)
             p = self.path_of(opnd, env)
+            if p is None and opnd is not None and opnd.get('kind') == 'CXXMemberCallExpr':
+                sd_, obj_, args_ = tu.call_parts(opnd)
+                if sd_.get('q', '').split('::')[-1] in ('c_str', 'data') and not args_ and obj_ is not None and \
+                        sd_.get('q', '').startswith('std::basic_string') and \
+                        bare_type(callee['params'][1]['ct']) in ('const char *', 'char *'):
+                    base = self.path_of(obj_, env)
+                    if base is not None:
+                        p = ('cstr', base)
+                        env['ptype'][p] = 'const char *'
             if p is None:
                 if opnd is not None and opnd.get('kind') == 'StringLiteral':
                     p = ('lit', opnd.get('value', ''))
@@ -1782,6 +1885,8 @@ def flatten(items):
 def self_check_writer(items, problems, sizes=None):
     """a writer must describe the whole container: counts and byte lengths derive from size(container)"""
     for it in items:
+        if it[0] == 'DATA' and it[1][0] == 'cstr':
+            continue          # reported with its own message when paired with the reader
         if it[0] == 'DATA':
             want = Poly.atom(('size', it[1])) * it[3]
             if it[2] != want:
@@ -1935,6 +2040,12 @@ def _pair_flat(W, R, problems, bind, sizes, aw, ar):
         elif w[0] == 'DATA':
             rl = rsub(r[2])
             have = sizes.get(r[1])
+            if w[1][0] == 'cstr' and w[1][1] == r[1]:
+                problems.append(('length-function', 'the writer of `%s` hands `%s` to the C-string operator, which measures the length '
+                                 'with strlen: a std::string holding size() characters that include a NUL is cut at the first NUL '
+                                 '(length field and data are strlen(%s), required size(%s))'
+                                 % (show_path(r[1]), show_path(w[1]), show_path(w[1]), show_path(r[1])), w[4]))
+                return
             if w[1] != r[1]:
                 problems.append(('shape', 'data block of `%s` is read into `%s`' % (show_path(w[1]), show_path(r[1])), r[4]))
                 return
@@ -2176,6 +2287,97 @@ def check_signatures(ctx, tu):
     ctx.floor(R5, n5, 20, 'written probe types: 22')
 
 
+def check_buffer_moves(ctx, tu):
+    """R-C15-6: the (pointer, size) pair that BufferWriter / BufferReader bounds-check against is cached in the
+    AbstractArray base of the buffer object; an operation that hands the storage of the writer's buffer to another
+    object must leave the source describing no bytes."""
+    R = 'R-C15-6'
+    ctx.describe(R, 'the array type behind BufferWriter::buffer keeps its cached (pointer, size) in step with the storage it '
+                 'owns: its move operations are absent, or user-provided and re-synchronise the moved-from object')
+    n = 0
+    wr = [r for r in tu.records.values() if r['q'] == NET + 'BufferWriter']
+    if not wr:
+        ctx.broken('%s: record BufferWriter not found' % R)
+        return
+    bt = None
+    for fd in wr[0]['fields']:
+        m = re.match(r'^(?:const )?std::shared_ptr<(rkcommon::utility::\w+<.*>)>$', fd['ct'])
+        if m:
+            bt = m.group(1)
+    rec = tu.records_by_type.get(bt) if bt else None
+    if rec is None:
+        ctx.broken('%s: type of BufferWriter::buffer not found in the record table' % R)
+        return
+    base = [b for b in rec.get('bases', []) if b.startswith(UTIL + 'AbstractArray<')]
+    owning = [fd for fd in rec['fields'] if fd['ct'].startswith('std::vector<') or 'unique_ptr' in fd['ct'] or fd['ct'].endswith('*')]
+    if not base or not owning:
+        ctx.undecided(R, short(bt), 'the buffer type does not have the shape "AbstractArray base + owning member"', '?')
+        return
+    file = 'rkcommon/utility/OwnedArray.h'
+    for which, label, attr in (('move_ctor', 'move constructor', 'ctor'), ('move_assign', 'move assignment', 'assign')):
+        info = rec.get(which, {})
+        inst = '%s %s' % (short(bt), label)
+        key = '%s|%s|%s|%s' % (R, file, short(rec['q']), which)
+        n += 1
+        if not info.get('has') or info.get('deleted'):
+            ctx.ok(R, inst, 'not declared: moving falls back to copying, the source stays consistent', file)
+            continue
+        if not info.get('user'):
+            ctx.violation(R, inst, 'the %s is implicitly defined / defaulted: it moves the storage member `%s` to the destination '
+                          'but copies the cached (pointer, size) of the %s base, so the moved-from array still reports its old size '
+                          'at a block it no longer owns; a BufferWriter / BufferReader on it bounds-checks against that stale extent'
+                          % (label, owning[0]['name'], base[0].replace(UTIL, '')), file, key=key + '|defaulted')
+            continue
+        fs = [f for f in tu.functions.values() if f.get('rect') == bt and f.get(attr) == 'move' and tu.cfg(f) is not None]
+        if not fs:
+            ctx.broken('%s: body of the %s of %s not in the facts (driver probe rkverif::c15x::move_owned missing?)' % (R, label, bt))
+            continue
+        f = fs[0]
+        g = tu.cfg(f)
+        src = f['params'][0]['id'] if f.get('params') else None
+        transfers, resyncs = [], []
+        for b, i, x in g.stmts():
+            if x.get('kind') == 'CallExpr' and tu.sd(x).get('q') in ('std::move', 'std::swap', 'std::exchange'):
+                for a in tu.call_parts(x)[2]:
+                    a0 = tu.strip(a, casts=True)
+                    if a0 is not None and a0.get('kind') == 'MemberExpr' and tu.kids(a0) and tu.ref_decl(tu.kids(a0)[0]) == src:
+                        transfers.append((b.id, i, x))
+            if x.get('kind') == 'CXXMemberCallExpr':
+                sd, obj, args = tu.call_parts(x)
+                nm = sd.get('q', '').split('::')[-1]
+                if obj is not None and tu.ref_decl(obj) == src and nm in ('reset', 'setPtr', 'resize', 'clear'):
+                    resyncs.append((b.id, i, x))
+                o0 = tu.strip(obj) if obj is not None else None
+                if nm == 'swap' and ((o0 is not None and o0.get('kind') == 'MemberExpr' and tu.kids(o0) and tu.ref_decl(tu.kids(o0)[0]) == src)
+                                     or any(tu.strip(a, casts=True).get('kind') == 'MemberExpr' and tu.kids(tu.strip(a, casts=True)) and
+                                            tu.ref_decl(tu.kids(tu.strip(a, casts=True))[0]) == src for a in args)):
+                    transfers.append((b.id, i, x))
+        # initialisers (dataBuf(std::move(other.dataBuf))) are CFG 'I' elements
+        for b in g.blocks.values():
+            for i, e in enumerate(b.el):
+                if e[0] == 'I' and e[2] is not None:
+                    init = tu.node(e[1])
+                    for x in (tu.walk(init) if init is not None else ()):
+                        if x.get('kind') == 'CallExpr' and tu.sd(x).get('q') == 'std::move':
+                            a0 = tu.strip(tu.call_parts(x)[2][0], casts=True)
+                            if a0 is not None and a0.get('kind') == 'MemberExpr' and tu.kids(a0) and tu.ref_decl(tu.kids(a0)[0]) == src:
+                                if not any(t[2]['id'] == x['id'] for t in transfers):
+                                    transfers.append((b.id, i, x))
+        if not transfers:
+            ctx.undecided(R, inst, 'user-provided %s in which no transfer of a member of the source is recognised' % label, tu.fn_loc(f))
+            continue
+        bad = [t for t in transfers if not any(g.postdominates((rb, ri), (t[0], t[1])) for rb, ri, rx in resyncs)]
+        if bad:
+            ctx.violation(R, inst, 'the %s takes over `%s` but no path-wise following call re-synchronises the source (reset() / '
+                          'setPtr): the moved-from array keeps the pointer and size of a block it no longer owns'
+                          % (label, tu.show(tu.call_parts(bad[0][2])[2][0]) if tu.call_parts(bad[0][2])[2] else 'the storage'),
+                          tu.loc(bad[0][2]), key=key + '|moved-from-not-reset')
+        else:
+            ctx.ok(R, inst, 'takes over the storage and then calls %s on the source' % tu.sd(resyncs[0][2]).get('q', '').split('::')[-1],
+                   tu.fn_loc(f))
+    ctx.floor(R, n, 2, 'move constructor and move assignment of the BufferWriter buffer type')
+
+
 def trivially_copyable_witness(ctx, tu, types):
     """set of type names that are NOT trivially copyable, decided by the compiler on a generated unit of
     static_asserts (one per line); None if the unit cannot be compiled for another reason"""
@@ -2218,10 +2420,12 @@ def run(ctx):
     tus = dict(zip(units, parsed))
     check_buffers(ctx, tus)
     check_signatures(ctx, tus['drivers/c15_streams.cpp'])
+    check_buffer_moves(ctx, tus['drivers/c15_streams.cpp'])
     if ctx.tier == 'thorough':
         more = ctx.front.parse_many([dict(unit=u, config='DEBUG', std='gnu++17') for u in units])
         tus2 = dict(zip(units, more))
         check_buffers(ctx, tus2)
         check_signatures(ctx, tus2['drivers/c15_streams.cpp'])
+        check_buffer_moves(ctx, tus2['drivers/c15_streams.cpp'])
     from rkstatic import selftest
     selftest.run(ctx)
